@@ -51,7 +51,7 @@ NA = {
         "deciding C16 (DESIGN section 4, C16)",
 }
 
-READY = {"C01", "C02", "C03", "C05", "C06"}
+READY = {"C01", "C02", "C03", "C05", "C06", "C12", "C13"}
 
 def main():
     checks, na = [], []
